@@ -12,6 +12,12 @@ def run(R, tier, seed, only=None):
     if only in (None, "sqlstr"):
         import sqlstr
         sqlstr.check_sqlstr(R, d, tier)
+    if only in (None, "strlex"):
+        import strlex
+        strlex.check_strlex(R, d, tier)
+    if only in (None, "numbase"):
+        import numlex
+        numlex.check_numbase(R, d, tier)
     d.close()
     R.cov["states"] = max(1, R.cov.get("states", 0))
     R.cov["transitions"] = max(1, R.cov.get("transitions", 0))
